@@ -19,6 +19,7 @@ func runC07(c *Ctx) {
 	c.Clause("C07.7 the connection's run-loop timer folds in the ACK alarm on every path that is not hard-blocked (an armed alarm that the timer ignores never fires)")
 	c.Clause("C07.9 every payload serialiser (stock appendPacketPayload, spec MarshalInitialPacketPayload) writes the ACK frame that was dequeued into the payload")
 	c.Clause("C07.8 whenever ranges are removed from the front of the received-packet history (DeleteBelow, pruning beyond MaxNumAckRanges) the duplicate threshold deletedBelow is raised on the same path: what was forgotten counts as potentially duplicate")
+	c.Clause("C07.10 after buffered (formerly undecryptable) packets were processed the run loop triggers sending before it waits again; C07.11 an ack-only datagram consults every packet number space")
 	c.NotCovered("interval-list algebra (merge/insert/prune correctness), HighestMissingUpTo")
 	c.NotCovered("that ranges are disjoint and include the largest received, as a value-level fact")
 
@@ -31,6 +32,8 @@ func runC07(c *Ctx) {
 	c.rule("C07.7", func() { timerFold(c, "C07.7", false, true) })
 	c.rule("C07.8", func() { c07ForgettingRaisesThreshold(c) })
 	c.rule("C07.9", func() { c07DequeuedAckIsSerialised(c) })
+	c.rule("C07.10", func() { c07BufferedPacketsTriggerSending(c) })
+	c.rule("C07.11", func() { c07AckOnlyCoversAllSpaces(c) })
 }
 
 func c07Ranges(c *Ctx) {
